@@ -43,6 +43,12 @@ parsec_dtd_data_flush_sndrcv(parsec_execution_stream_t *es,
 #if defined(DISTRIBUTED)
     if(tile->rank == current_task->rank) { /* this is a receive task*/
         if( current_task->super.data[0].data_in != tile->data_copy ) {
+            /* The copy of the owner is about to be overwritten with the version received from
+             * the last (remote) writer: tasks of this rank inserted before that writer may still
+             * have to read the previous version in place. */
+            if( parsec_dtd_data_copy_reader_count(tile->data_copy) > 0 ) {
+                return PARSEC_HOOK_RETURN_AGAIN;
+            }
             int16_t index = (FLOW_OF(current_task, 0))->arena_index;
             parsec_dep_data_description_t data;
             data.data   = current_task->super.data[0].data_in;
